@@ -1,16 +1,23 @@
 import Pko.Drv.PhaseCommon
 import Pko.Model.ObjectSet
 import Pko.Model.Remote
+import Pko.Model.Slices
 /-! Shared part of the controller-level ("sys") drivers: scenario decoding, running the
 ObjectSet controller model over a schedule, canonical printing — the format of
 `harness/verifsys/sys.go`. -/
 namespace Pko.Drv.SysCommon
 open Lean Pko.Kube Pko.Model.Phase Pko.Model.ObjectSet Pko.Model.Status Pko.Drv.PhaseCommon
 
+structure JSlice where
+  name : String
+  objects : Option (List JPObj)
+  deriving FromJson, Repr
+
 structure JPhase where
   name : String
   «class» : String
   objects : Option (List JPObj)
+  slices : Option (List JSlice) := none    -- C04 "slices" stream only
   deriving FromJson, Repr
 
 structure JSet where
@@ -98,9 +105,25 @@ def initSys (s : Scn) : Sys :=
       finalizer := o.finalizer
       deleting := false }
     { (st.set k (some obj)) with nextUID := st.nextUID + 1, nextRV := st.nextRV + 1 }) store0
+  -- ObjectSlices are fixtures: they consume no uid / resourceVersion numbers
+  let slices := sets.flatMap fun js => (js.phases.getD []).flatMap fun ph =>
+    (ph.slices.getD []).map fun sl => (sl.name, (sl.objects.getD []).map toPObj)
   { w := { store := store, writes := 0, env := [], events := [] }
     sets := fun nm => osets.find? (·.name = nm)
-    setEvents := [], freed := [], setWrites := 0, setEnv := [] }
+    setEvents := [], freed := [], setWrites := 0, setEnv := [], slices := slices }
+
+/-- `phase.Slices` per phase of the ObjectSet called `name` (spec, static). -/
+def sliceRefs (s : Scn) (name : String) : List (List String) :=
+  match (s.sets.getD []).find? (·.name = name) with
+  | some js => (js.phases.getD []).map fun ph => (ph.slices.getD []).map (·.name)
+  | none => []
+
+/-- the objects of every slice that EVER belonged to a phase of the spec, per phase. -/
+def sliceObjs (s : Scn) (name : String) : List (List PObj) :=
+  match (s.sets.getD []).find? (·.name = name) with
+  | some js => (js.phases.getD []).map fun ph =>
+      (ph.slices.getD []).flatMap fun sl => (sl.objects.getD []).map toPObj
+  | none => []
 
 def toSetEnv (e : JSetEnv) : Nat × SetEnvOp :=
   (e.at, match e.op with
@@ -116,11 +139,14 @@ def condStr (c : Cond) : String :=
 def condsStr (cs : List Cond) : String := ",".intercalate (sortStrings (cs.map condStr))
 def crefStr (c : CRef) : String := s!"{c.kind}/{c.ns}/{c.name}"
 def crefsStr (cs : List CRef) : String := ",".intercalate (cs.map crefStr)
+/-- status.remotePhases as `name:uid`, in the order of the status list. -/
+def rpStr (rs : List (String × String)) : String := ",".intercalate (rs.map fun r => s!"{r.1}:{r.2}")
 def resOr (r : Option ApiErr) : String := match r with | none => "ok" | some e => "!" ++ errStr e
 
 def setEventStr : SetEvent → String
   | .finalizerPatch n add r => s!"F {n} {if add then "+" else "-"} {resOr r}"
-  | .statusUpdate n r rev conds co => s!"S {n} {resOr r} rev={rev} conds=[{condsStr conds}] co=[{crefsStr co}]"
+  | .statusUpdate n r rev conds co rp =>
+    s!"S {n} {resOr r} rev={rev} conds=[{condsStr conds}] co=[{crefsStr co}] rp=[{rpStr rp}]"
 
 def phaseEventStr (kind : String) : PhaseEvent → String
   | .create n r => s!"C {kind}/{n} {resOr r}"
@@ -139,7 +165,7 @@ def lifeStr : Lifecycle → String
   | .active => "Active" | .paused => "Paused" | .archived => "Archived"
 
 def osetStr (o : OSet) : String :=
-  s!"{o.name}\{g={o.gen},d={b01 o.deleting},f={if o.finCached then "c" else ""}{if o.finOrphan then "o" else ""},life={lifeStr o.lifecycle},rev={o.revision} conds=[{condsStr o.conds}] co=[{crefsStr o.controllerOf}]}"
+  s!"{o.name}\{g={o.gen},d={b01 o.deleting},f={if o.finCached then "c" else ""}{if o.finOrphan then "o" else ""},life={lifeStr o.lifecycle},rev={o.revision} conds=[{condsStr o.conds}] co=[{crefsStr o.controllerOf}] rp=[{rpStr o.remotePhases}]}"
 
 /-- one schedule step; returns the output token of the step. -/
 def stepModel (scn : Scn) (cfg : Cfg) (st : JStep) (s : Sys) : Sys × String :=
@@ -147,7 +173,9 @@ def stepModel (scn : Scn) (cfg : Cfg) (st : JStep) (s : Sys) : Sys × String :=
   | "reconcile" =>
     let s0 : Sys := { s with w := { s.w with writes := 0, env := (st.env.getD []).map toEnv, events := [], phaseEvents := [], applied := [] },
                              setEvents := [], setWrites := 0, setEnv := (st.setEnv.getD []).map toSetEnv }
-    let (s1, r) := reconcile cfg Pko.Model.Remote.remotes st.set s0
+    let refs := sliceRefs scn st.set
+    let (s1, r) := if refs.all (·.isEmpty) then reconcile cfg Pko.Model.Remote.remotes st.set s0
+      else Pko.Model.Slices.reconcileSliced cfg Pko.Model.Remote.remotes refs st.set s0
     (s1, stepOut r s1)
   | "phase" =>
     let s0 : Sys := { s with w := { s.w with writes := 0, env := (st.env.getD []).map toEnv, events := [], phaseEvents := [], applied := [] },
@@ -161,6 +189,7 @@ def stepModel (scn : Scn) (cfg : Cfg) (st : JStep) (s : Sys) : Sys × String :=
   | "delete" => (s.applySetEnv (.delete st.set st.orphan), "-")
   | "editPayload" => (s.applySetEnv (.editPayload st.set st.phase st.obj st.value), "-")
   | "restart" => (s, "-")
+  | "delSlice" => ({ s with slices := s.slices.filter (·.1 != st.set) }, "-")   -- a third party deletes an ObjectSlice
   | _ => (s, "BAD-STEP")
 where
   stepOut (r : Res) (s1 : Sys) : String :=
@@ -172,7 +201,7 @@ def setNames (s : Scn) : List String := (s.sets.getD []).map (·.name)
 def managedKeys (s : Scn) (cfg : Cfg) : List Key :=
   let fromStore := (s.store.getD []).map (fun o => (⟨o.kind, o.ns, o.name⟩ : Key))
   let fromSets := (s.sets.getD []).flatMap fun js =>
-    (js.phases.getD []).flatMap fun ph => (ph.objects.getD []).map fun p =>
+    (js.phases.getD []).flatMap fun ph => ((ph.objects.getD []) ++ (ph.slices.getD []).flatMap (·.objects.getD [])).map fun p =>
       let ow : Owner := { group := pkoGroup, kind := setKindOf s, ns := nsOf s, name := js.name, uid := "", rev := 0, paused := false, pkgLabel := "" }
       keyOf cfg ow (toPObj p)
   (fromStore ++ fromSets).eraseDups
@@ -187,7 +216,8 @@ def model (s : Scn) : String :=
   let (outs, sys) := runModel s
   let phaseNames := (s.sets.getD []).flatMap fun js => (js.phases.getD []).map fun ph => js.name ++ "-" ++ ph.name
   let sets := sortStrings (((setNames s).filterMap fun n => (sys.sets n).map osetStr) ++
-    (phaseNames.filterMap fun n => (sys.w.phases n).map ophaseStr))
+    (phaseNames.filterMap fun n => (sys.w.phases n).map ophaseStr) ++
+    (sys.slices.map fun sl => (if s.cluster then "ClusterObjectSlice/" else "ObjectSlice/") ++ sl.1))
   let objs := sortStrings ((managedKeys s (cfgOf s)).filterMap fun k => (sys.w.store.get k).map (objStr k))
   " ## ".intercalate (outs ++ [";".intercalate sets, ";".intercalate objs])
 
